@@ -164,6 +164,23 @@ def adder_checks(ck):
                             expected=want[j], observed=got[j], signature={"what": "adder"})
 
 
+def compiled_reject_checks(ck):
+    """A compiled model whose LAST layer width is not divisible by k must be refused (and a divisible one accepted)."""
+    rng = ck.rng
+    for n_in, n_out, k in ((6, 7, 3), (7, 9, 3), (4, 7, 2), (5, 10, 5), (6, 9, 2), (9, 6, 3)):
+        model = nets.make_dense(rng, 4, [n_in, n_out], k=k)
+        case = {"kind": "compiled-divisibility", "last_in": n_in, "last_out": n_out, "k": k}
+        ck.case(case, kind="compiled_reject")
+        try:
+            compiled.build(model, 8)
+            accepted = True
+        except Exception:
+            accepted = False
+        if accepted != (n_out % k == 0):
+            ck.disagree("compiler accepts a width not divisible by k (or refuses a divisible one)", case, observed=accepted,
+                        signature={"what": "compiled-divisible"})
+
+
 def run(ck: Check):
     ck.trusted = TRUSTED
     ck.rule = ("GroupSum.forward on 0/1 float64 tensors of rank 2..4, k in 1..6, group 1..11, tau in a fixed set, exact "
@@ -177,6 +194,7 @@ def run(ck: Check):
     width_checks(ck)
     torch_checks(ck)
     adder_checks(ck)
+    compiled_reject_checks(ck)
     return ck.finish()
 
 
